@@ -392,7 +392,9 @@ impl Session {
             b'L' => self.list_files(),
             b'Y' => {
                 self.quiesce();
-                crate::suite_crash::dir_check(self)
+                let r = crate::suite_crash::dir_check(self);
+                let facts = crate::suite_crash::LAST_DIR_FACTS.lock().unwrap().pop().unwrap_or_default();
+                format!("{}#{}", r, facts)
             }
             b'E' => match self.db().get_descriptor(DatabaseDescriptor::Stats) {
                 Ok(s) => format!("stats:{}", s.len()),
